@@ -102,6 +102,37 @@ Theorem callback_chain_mock : forall newid st ops i st' outs,
   chain_end (view [] st i) (cbs_on i (cbs_of outs)) = view [] st' i.
 Proof. exact callback_chain_mock_pf. Qed.
 
+(* ---- BeforeChange listeners: the calls made by the badgerstore model are those of the
+   specification, along every history; mockstore has none ---- *)
+Theorem bc_refines_badger : forall pfx nl st o,
+  bstep_bc pfx nl st o = spec_bc cfg_badger nl (abs pfx st) o.
+Proof. exact bstep_bc_refines_pf. Qed.
+
+Theorem run_bc_refines_badger : forall pfx nl ops st,
+  run_bc (bstep pfx) (bstep_bc pfx nl) st ops =
+  run_bc (spec_step cfg_badger) (spec_bc cfg_badger nl) (abs pfx st) ops.
+Proof. exact run_bc_refines_badger_pf. Qed.
+
+Theorem bc_mock_none : forall newid nl m o, spec_bc (cfg_mock newid) nl m o = [].
+Proof. exact spec_bc_mock_pf. Qed.
+
+(* an operation calls the listeners exactly when it ends in success or in a veto (whatever
+   the value written, equal to the stored one or not); then the outcome is the veto error
+   iff some listener vetoes, and the calls are listeners 1, 2, ... in registration order,
+   each once with (id, current value, new value), up to and including the first veto *)
+Theorem bc_listener_stage : forall c nl m o m' r cbs,
+  s_checks c = true -> spec_step c m o = (m', r, cbs) ->
+  (is_mutation o = true /\
+   r = (if Nat.eqb (vetoat_of o) 0 then ROk else EVeto) /\
+   spec_bc c nl m o = bc_calls nl (vetoat_of o) (touch c o) (m !! touch c o) (after_of o)) \/
+  (r <> ROk /\ r <> EVeto /\ spec_bc c nl m o = []).
+Proof. exact spec_bc_stage_pf. Qed.
+
+Theorem bc_calls_shape : forall nl k i b a,
+  bc_calls nl k i b a =
+  map (fun x => (x, i, b, a)) (seq 1 (if Nat.eqb k 0 || (nl <? k)%nat then nl else k)).
+Proof. exact bc_calls_shape_pf. Qed.
+
 (* ---- locking: in EVERY execution of the transaction LTS (any step function, any
    lock key function: identity = keylock per id, constant = one global RWMutex),
    transactions sharing a lock key are open together only if all of them read ---- *)
@@ -162,7 +193,7 @@ Proof. vm_compute. reflexivity. Qed.
 
 (* ---- non-vacuity ---- *)
 Definition va := s2b "{""n"":1}". Definition vb := s2b "{""n"":2}".
-Definition veto_env := Env false true []. Definition wrong_env := Env true false [].
+Definition veto_env := Env false 1%nat []. Definition wrong_env := Env true 0%nat [].
 Definition demo_ops : list op :=
   [OCreate (s2b "a") va env0; OCreate (s2b "a") vb env0; OUpdate (s2b "a") vb veto_env;
    OUpdate (s2b "a") vb env0; OValue (s2b "a"); OCreate [] va env0; OUpdate (s2b "b") va wrong_env;
@@ -176,10 +207,23 @@ Example badger_demo :
 Proof. vm_compute. reflexivity. Qed.
 
 Example mock_newid_demo :
-  run (mstep true) [] [OCreate [] va (Env false false (s2b "g1")); OValue (s2b "g1"); OValue [];
-                        OCreate [] vb (Env false false (s2b "g1")); OCreate [] vb env0] =
+  run (mstep true) [] [OCreate [] va (Env false 0%nat (s2b "g1")); OValue (s2b "g1"); OValue [];
+                        OCreate [] vb (Env false 0%nat (s2b "g1")); OCreate [] vb env0] =
   ([(s2b "g1", va)], [(ROk, [(s2b "g1", None, Some va)]); (RVal va, []); (ENotFound, []); (EDuplicate, []); (RPanic, [])]).
 Proof. vm_compute. reflexivity. Qed.
+
+(* an Update to the value already stored is vetoed like any other: veto error, no OnChange,
+   listener 1 accepts and listener 2 vetoes, both see (id, stored value, same value) *)
+Example same_value_update_vetoed :
+  let st := [(s2b "a", va)] in
+  bstep [] st (OUpdate (s2b "a") va (Env false 2%nat [])) = (st, EVeto, []) /\
+  bstep_bc [] 2 st (OUpdate (s2b "a") va (Env false 2%nat [])) =
+    [(1%nat, s2b "a", Some va, Some va); (2%nat, s2b "a", Some va, Some va)] /\
+  bstep_bc [] 2 st (OUpdate (s2b "a") va env0) =
+    [(1%nat, s2b "a", Some va, Some va); (2%nat, s2b "a", Some va, Some va)] /\
+  bstep_bc [] 2 st (OUpdate (s2b "a") va (Env false 1%nat [])) = [(1%nat, s2b "a", Some va, Some va)] /\
+  bstep_bc [] 2 st (OCreate (s2b "a") va env0) = [].
+Proof. vm_compute. repeat split. Qed.
 
 (* two write transactions on one id cannot be open together; on two ids (keylock) they can,
    under one global lock (mockstore) they cannot; readers share *)
